@@ -24,12 +24,13 @@ type Property struct {
 
 // propImports: rules of other properties that also decide a clause of this one (see importRules).
 var propImports = map[string][][]string{
-	"C01": {{"C02", "ADMISSIBLE", "CLUSTER"}, {"C11", "KIND", "SIZE", "EXACT-STORE", "ERR"}},
-	"C03": {{"C02", "ADMISSIBLE", "CLUSTER"}},
+	"C01": {{"C02", "ADMISSIBLE", "CLUSTER", "RUNES"}, {"C11", "KIND", "SIZE", "EXACT-STORE", "ERR", "TAG"}},
+	"C02": {{"C03", "SYNTAX"}},
+	"C03": {{"C02", "ADMISSIBLE", "CLUSTER", "RUNES"}, {"C10", "BEFORE-COMMANDS"}},
 	"C06": {{"C10", "BEFORE-COMMANDS"}},
 	"C09": {{"C06", "WALK", "SELECT", "POSITIONAL"}},
 	"C10": {{"C03", "TERMINATOR", "PASSAFTER"}},
-	"C12": {{"C13", "FUNNEL"}},
+	"C12": {{"C13", "FUNNEL"}, {"C11", "TAG"}},
 	"C16": {{"C17", "UNIT"}},
 	"C17": {{"C16", "ATTR", "MASK"}},
 	"C20": {{"C16", "PRED"}},
